@@ -1,12 +1,15 @@
 /-
 C15 — helper lemmas about the state machine `Glotaran.C15.optimizeSM`:
-closed forms of `leastSquares` on schedules split at their first fault, frame facts (what no step
-touches), the history/evaluatedOK invariant, irrelevance of `verbose`.
+  1. the machine instantiated with the *regenerated* statement tables equals the hand-written
+     order of effects of the current source (`…Spec` functions, `…_eq` lemmas) — these are the
+     lemmas that stop compiling when `optimizer.py` is reordered;
+  2. closed forms of `leastSquares` on schedules split at their first fault, frame facts (what no
+     step touches), the history/evaluatedOK invariant, irrelevance of `verbose`.
 -/
 import GlotaranModel.C15
 namespace Glotaran.C15
 
-variable {α : Type}
+variable {V R P : Type}
 
 /-! ### specification of the up-front validation (the documented order) -/
 
@@ -21,7 +24,7 @@ def groupProblem (g : GroupSpec) : Option Err :=
 
 /-- the documented error of a scheme that cannot be optimised: data, parameters, method, then the
     dataset groups in order; `none` = the scheme is accepted -/
-def documentedError (s : Scheme α) : Option Err :=
+def documentedError (s : Scheme P) : Option Err :=
   if s.missingData ≠ [] then some (.missingDatasets s.missingData)
   else if s.parameters.isNone then some .parameterNotInitialized
   else if s.method ∉ Generated.supportedMethods then some (.unsupportedMethod s.method)
@@ -38,10 +41,195 @@ theorem initGroups_eq (gs : List GroupSpec) : initGroups gs = gs.findSome? group
     simp only [initGroups, List.findSome?_cons, initGroup_eq]
     cases groupProblem g <;> simp [ih]
 
-theorem init_error (w : World α) (v r : Bool) (e : Err) (h : documentedError w.scheme = some e) :
-    init w v r = .error e := by
+/-! ### 1. the regenerated tables give the order of effects of the current source -/
+
+/-- `Optimizer.__init__`, hand-written: validation in the documented order; the tee remembers the
+    current `sys.stdout`; the first history record is taken from the optimizer's **own** copy of the
+    parameters (which `ParameterHistory.append` refreshes in place) — the caller's scheme is not
+    touched -/
+def initSpec (ops : ParamOps V R P) (w : World P) (verbose raiseException : Bool) :
+    Except Err (Optimizer V R P) :=
+  if !w.scheme.missingData.isEmpty then .error (.missingDatasets w.scheme.missingData)
+  else
+    match w.scheme.parameters with
+    | none => .error .parameterNotInitialized
+    | some p0 =>
+      if !Generated.supportedMethods.contains w.scheme.method then
+        .error (.unsupportedMethod w.scheme.method)
+      else
+        match initGroups w.scheme.groups with
+        | some e => .error e
+        | none =>
+          .ok { parameters := ops.start p0, teeSaved := w.stdout, verbose := verbose,
+                raiseException := raiseException, optimizationResult := none,
+                terminationReason := "", history := [ops.row (ops.start p0)] }
+
+theorem init_eq (ops : ParamOps V R P) (w : World P) (v r : Bool) :
+    init ops w v r = (w, initSpec ops w v r) := by
+  unfold init initSpec
+  by_cases h1 : w.scheme.missingData.isEmpty = true
+  · cases hp : w.scheme.parameters with
+    | none => simp [Generated.initSteps, runInit, initStep, h1, hp]
+    | some p0 =>
+      by_cases h3 : w.scheme.method ∈ Generated.supportedMethods
+      · cases hg : initGroups w.scheme.groups with
+        | some e => simp [Generated.initSteps, runInit, initStep, h1, hp, h3, hg]
+        | none => simp [Generated.initSteps, runInit, initStep, h1, hp, h3, hg, appendFrom, ParamOps.start]
+      · simp [Generated.initSteps, runInit, initStep, h1, hp, h3]
+  · simp [Generated.initSteps, runInit, initStep, h1]
+
+/-- `Optimizer.calculate_penalty`, hand-written: the sweep over the groups, and only after it has
+    returned the record of the (refreshed) parameters -/
+def calculatePenaltySpec (ops : ParamOps V R P) (w : World P) (o : Optimizer V R P) (fault : Option Msg) :
+    World P × Optimizer V R P × Option Err :=
+  match fault with
+  | some m => ({ w with evaluations := w.evaluations + 1 }, o, some (.raised m))
+  | none =>
+    ({ w with evaluations := w.evaluations + 1, evaluatedOK := w.evaluatedOK ++ [o.parameters] },
+     { o with parameters := ops.refresh o.parameters,
+              history := o.history ++ [ops.row (ops.refresh o.parameters)] }, none)
+
+@[simp] theorem calculatePenalty_eq (ops : ParamOps V R P) (w : World P) (o : Optimizer V R P)
+    (fault : Option Msg) : calculatePenalty ops w o fault = calculatePenaltySpec ops w o fault := by
+  cases fault <;>
+    simp [calculatePenalty, Generated.penaltySteps, runPenalty, penaltyStep, evaluate, appendFrom,
+      calculatePenaltySpec]
+
+/-- `Optimizer.objective_function`, hand-written -/
+def objectiveSpec (ops : ParamOps V R P) (w : World P) (o : Optimizer V R P) (c : Call V) :
+    World P × Optimizer V R P × Option Err :=
+  calculatePenaltySpec ops w { o with parameters := ops.setFree o.parameters c.x } c.fault
+
+@[simp] theorem objective_eq (ops : ParamOps V R P) (w : World P) (o : Optimizer V R P) (c : Call V) :
+    objective ops w o c = objectiveSpec ops w o c := by
+  unfold objective objectiveSpec
+  simp only [Generated.objectiveSteps, runObjective, objectiveStep, calculatePenalty_eq]
+  cases c.fault <;> simp [calculatePenaltySpec]
+
+/-- `Optimizer.optimize`, hand-written: the start vector is read from a copy of the scheme's
+    parameters (nothing is refreshed); `try/except` inside the tee context; with `raise_exception`
+    the exception is re-raised before anything else happens, otherwise one warning and the message
+    as termination reason; `sys.stdout` is restored on every path -/
+def optimizeSpec (ops : ParamOps V R P) (w : World P) (o : Optimizer V R P) (sch : Schedule V) :
+    World P × Optimizer V R P × Option Err :=
+  match leastSquares ops { w with stdout := Handle.tee } o sch.calls sch.finish with
+  | (w, o, .ok res) =>
+    ({ w with stdout := o.teeSaved },
+     { o with optimizationResult := some res, terminationReason := res.message }, none)
+  | (w, o, .error e) =>
+    if o.raiseException then ({ w with stdout := o.teeSaved }, o, some e)
+    else
+      ({ w with stdout := o.teeSaved, warnings := w.warnings ++ [failureWarning e.msg] },
+       { o with terminationReason := e.msg }, none)
+
+theorem optimize_eq (ops : ParamOps V R P) (w : World P) (o : Optimizer V R P) (sch : Schedule V) :
+    optimize ops w o sch = optimizeSpec ops w o sch := by
+  unfold optimize optimizeSpec
+  simp only [Generated.optimizeTable, readStart, ↓reduceIte, runTry, tryStep]
+  rcases leastSquares ops { w with stdout := Handle.tee } o sch.calls sch.finish with ⟨w', o', r⟩
+  cases r with
+  | ok res => simp
+  | error e =>
+    simp only [runHandler, handlerStep]
+    by_cases hr : o'.raiseException = true <;> simp [hr]
+
+/-- the part of `create_result` after the parameters have been chosen, hand-written:
+    `calculate_penalty()`, then `additional_penalty` is read, then the final `group.calculate` /
+    `create_result_data` loop, then `Result(**result_args)` -/
+def buildResultSpec (ops : ParamOps V R P) (w : World P) (o : Optimizer V R P) (sch : Schedule V)
+    (restored : Option Nat) (nfe : Nat) : World P × Outcome R P :=
+  match calculatePenaltySpec ops w o sch.penaltyFault with
+  | (w, _, some e) => (w, .exception e)
+  | (w, o2, none) =>
+    match evaluate w o2.parameters sch.finalFault with
+    | (w', some m) => (w', .exception (.raised m))
+    | (w', none) =>
+      match sch.dataFault with
+      | some m => (w', .exception (.raised m))
+      | none =>
+        (w', .result { success := o.optimizationResult.isSome,
+                       terminationReason := o2.terminationReason,
+                       optimizedParameters := o2.parameters,
+                       restoredRecord := restored,
+                       numberOfFunctionEvaluations := nfe,
+                       parameterHistory := o2.history,
+                       penaltyOf := w.evaluatedOK.getLast?,
+                       dataOf := some o2.parameters })
+
+/-- `self._parameters.set_from_history(self._parameter_history, -2)` -/
+def restoreSpec (ops : ParamOps V R P) (o : Optimizer V R P) : Optimizer V R P :=
+  match o.history[o.history.length - 2]? with
+  | some rec => { o with parameters := ops.fromRow o.parameters rec }
+  | none => o     -- not reachable: the history has at least two records here
+
+/-- `Optimizer.create_result`, hand-written -/
+def createResultSpec (ops : ParamOps V R P) (w : World P) (o : Optimizer V R P) (sch : Schedule V) :
+    World P × Outcome R P :=
+  if o.history.length = 1 then (w, .exception .initialParameter)
+  else if o.history.length = 0 then (w, .exception (.internal "IndexError"))
+  else
+    match o.optimizationResult with
+    | none =>
+      -- `number_of_function_evaluations` is read before the re-evaluation appends its record
+      buildResultSpec ops w (restoreSpec ops o) sch (some (o.history.length - 2)) o.history.length
+    | some r =>
+      -- `set_from_label_and_value_arrays(labels, result.x)`, then the covariance matrix
+      match sch.covarianceFault with
+      | some m => (w, .exception (.raised m))
+      | none => buildResultSpec ops w { o with parameters := ops.setFree o.parameters r.x } sch none r.nfev
+
+theorem createResult_eq (ops : ParamOps V R P) (w : World P) (o : Optimizer V R P) (sch : Schedule V)
+    (h0 : o.history.length ≠ 0) :
+    createResult ops w o sch = createResultSpec ops w o sch := by
+  unfold createResult createResultSpec
+  by_cases h1 : o.history.length = 1
+  · simp [Generated.createResultSteps, runCr, guardHolds, crStep, Frame.empty, h1]
+  · simp only [h1, h0, ↓reduceIte]
+    have hlen : 2 ≤ o.history.length := by omega
+    have hlt : o.history.length - 2 < o.history.length := by omega
+    cases hopt : o.optimizationResult with
+    | none =>
+      have hnot : ¬ (o.history.length < 2) := by omega
+      simp only [Generated.createResultSteps, runCr, guardHolds, crStep, Frame.empty, hopt, h1,
+        Option.isSome_none, Option.map_some, Bool.not_false, ↓reduceIte, hnot, or_false,
+        List.getElem?_eq_getElem hlt, calculatePenalty_eq]
+      simp only [buildResultSpec, restoreSpec, List.getElem?_eq_getElem hlt, hopt]
+      cases hp : sch.penaltyFault with
+      | some m => simp [calculatePenaltySpec]
+      | none =>
+        simp only [calculatePenaltySpec]
+        cases hf : sch.finalFault with
+        | some m => simp [evaluate]
+        | none =>
+          simp only [evaluate]
+          cases hd : sch.dataFault with
+          | some m => simp
+          | none => simp
+    | some r =>
+      simp only [Generated.createResultSteps, runCr, guardHolds, crStep, Frame.empty, hopt, h1,
+        Option.isSome_some, Option.map_some, Bool.not_true, ↓reduceIte, calculatePenalty_eq]
+      cases hc : sch.covarianceFault with
+      | some m => simp
+      | none =>
+        simp only [buildResultSpec]
+        cases hp : sch.penaltyFault with
+        | some m => simp [calculatePenaltySpec]
+        | none =>
+          simp only [calculatePenaltySpec]
+          cases hf : sch.finalFault with
+          | some m => simp [evaluate]
+          | none =>
+            simp only [evaluate]
+            cases hd : sch.dataFault with
+            | some m => simp
+            | none => simp
+
+/-! ### the validation -/
+
+theorem initSpec_error (ops : ParamOps V R P) (w : World P) (v r : Bool) (e : Err)
+    (h : documentedError w.scheme = some e) : initSpec ops w v r = .error e := by
   unfold documentedError at h
-  unfold init
+  unfold initSpec
   by_cases h1 : w.scheme.missingData = []
   · simp only [h1, ne_eq, not_true_eq_false, ↓reduceIte] at h
     simp only [h1, List.isEmpty_nil, Bool.not_true, Bool.false_eq_true, ↓reduceIte]
@@ -57,12 +245,14 @@ theorem init_error (w : World α) (v r : Bool) (e : Err) (h : documentedError w.
   · simp only [ne_eq, h1, not_false_eq_true, ↓reduceIte, Option.some.injEq] at h
     simp [h1, h]
 
-theorem init_ok (w : World α) (v r : Bool) (h : documentedError w.scheme = none) :
+theorem initSpec_ok (ops : ParamOps V R P) (w : World P) (v r : Bool) (h : documentedError w.scheme = none) :
     ∃ p0, w.scheme.parameters = some p0 ∧
-      init w v r = .ok { parameters := p0, teeSaved := w.stdout, verbose := v, raiseException := r,
-                         optimizationResult := none, terminationReason := "", history := [p0] } := by
+      initSpec ops w v r =
+        .ok { parameters := ops.start p0, teeSaved := w.stdout, verbose := v, raiseException := r,
+              optimizationResult := none, terminationReason := "",
+              history := [ops.row (ops.start p0)] } := by
   unfold documentedError at h
-  unfold init
+  unfold initSpec
   by_cases h1 : w.scheme.missingData = []
   · simp only [h1, ne_eq, not_true_eq_false, ↓reduceIte] at h
     cases hp : w.scheme.parameters with
@@ -75,203 +265,318 @@ theorem init_ok (w : World α) (v r : Bool) (h : documentedError w.scheme = none
       · simp [h3] at h
   · simp [h1] at h
 
+/-! ### the parameter sets an optimiser run goes through -/
+
+/-- the parameter set after an objective call at `v` returned -/
+def ParamOps.step (ops : ParamOps V R P) (p : P) (v : V) : P := ops.refresh (ops.setFree p v)
+
+/-- the parameter sets after each of the calls `vs` returned (starting from `p`) -/
+def ParamOps.states (ops : ParamOps V R P) : P → List V → List P
+  | _, [] => []
+  | p, v :: vs => ops.step p v :: ops.states (ops.step p v) vs
+
+/-- the parameter sets the calls `vs` were evaluated at -/
+def ParamOps.evaluated (ops : ParamOps V R P) : P → List V → List P
+  | _, [] => []
+  | p, v :: vs => ops.setFree p v :: ops.evaluated (ops.step p v) vs
+
+/-- the parameter set the optimizer holds after the calls `vs` returned -/
+def ParamOps.last (ops : ParamOps V R P) (p : P) (vs : List V) : P := vs.foldl ops.step p
+
+theorem ParamOps.states_length (ops : ParamOps V R P) : ∀ (vs : List V) (p : P),
+    (ops.states p vs).length = vs.length := by
+  intro vs
+  induction vs with
+  | nil => intro p; rfl
+  | cons v vs ih => intro p; simp [ParamOps.states, ih]
+
+theorem ParamOps.evaluated_length (ops : ParamOps V R P) : ∀ (vs : List V) (p : P),
+    (ops.evaluated p vs).length = vs.length := by
+  intro vs
+  induction vs with
+  | nil => intro p; rfl
+  | cons v vs ih => intro p; simp [ParamOps.evaluated, ih]
+
+theorem ParamOps.states_eq_map (ops : ParamOps V R P) : ∀ (vs : List V) (p : P),
+    ops.states p vs = (ops.evaluated p vs).map ops.refresh := by
+  intro vs
+  induction vs with
+  | nil => intro p; rfl
+  | cons v vs ih => intro p; simp [ParamOps.states, ParamOps.evaluated, ih, ParamOps.step]
+
+/-- the last state is the last element of `p :: states` -/
+theorem ParamOps.last_eq (ops : ParamOps V R P) : ∀ (vs : List V) (p : P),
+    (p :: ops.states p vs).getLast? = some (ops.last p vs) := by
+  intro vs
+  induction vs with
+  | nil => intro p; rfl
+  | cons v vs ih =>
+    intro p
+    have := ih (ops.step p v)
+    simp only [ParamOps.states, ParamOps.last, List.foldl_cons] at this ⊢
+    rw [List.getLast?_cons_cons]
+    exact this
+
+theorem ParamOps.plain_states (α : Type) : ∀ (vs : List α) (p : α),
+    (ParamOps.plain α).states p vs = vs := by
+  intro vs
+  induction vs with
+  | nil => intro p; rfl
+  | cons v vs ih =>
+    intro p
+    have := ih v
+    simp only [ParamOps.plain] at this
+    simp [ParamOps.states, ParamOps.step, ParamOps.plain, this]
+
+theorem ParamOps.plain_evaluated (α : Type) : ∀ (vs : List α) (p : α),
+    (ParamOps.plain α).evaluated p vs = vs := by
+  intro vs
+  induction vs with
+  | nil => intro p; rfl
+  | cons v vs ih =>
+    intro p
+    have := ih v
+    simp only [ParamOps.plain] at this
+    simp [ParamOps.evaluated, ParamOps.step, ParamOps.plain, this]
+
 /-! ### closed forms -/
 
-theorem buildResult_clean (w : World α) (o : Optimizer α) (sch : Schedule α) (restored : Option Nat)
-    (nfe : Nat) (hp : sch.penaltyFault = none) (hf : sch.finalFault = none) (hd : sch.dataFault = none) :
-    buildResult w o sch restored nfe =
+theorem buildResultSpec_clean (ops : ParamOps V R P) (w : World P) (o : Optimizer V R P) (sch : Schedule V)
+    (restored : Option Nat) (nfe : Nat) (hp : sch.penaltyFault = none) (hf : sch.finalFault = none)
+    (hd : sch.dataFault = none) :
+    buildResultSpec ops w o sch restored nfe =
       ({ w with evaluations := w.evaluations + 1 + 1,
-                evaluatedOK := w.evaluatedOK ++ [o.parameters] ++ [o.parameters] },
+                evaluatedOK := w.evaluatedOK ++ [o.parameters] ++ [ops.refresh o.parameters] },
        .result { success := o.optimizationResult.isSome, terminationReason := o.terminationReason,
-                 optimizedParameters := o.parameters, restoredRecord := restored,
+                 optimizedParameters := ops.refresh o.parameters, restoredRecord := restored,
                  numberOfFunctionEvaluations := nfe,
-                 parameterHistory := o.history ++ [o.parameters] }) := by
-  simp [buildResult, calculatePenalty, evaluate, hp, hf, hd]
+                 parameterHistory := o.history ++ [ops.row (ops.refresh o.parameters)],
+                 penaltyOf := some o.parameters,
+                 dataOf := some (ops.refresh o.parameters) }) := by
+  simp [buildResultSpec, calculatePenaltySpec, evaluate, hp, hf, hd]
 
 /-- the calls before the first fault all return; the fault ends `least_squares` -/
-theorem leastSquares_fault (fin : LsqEnd α) (x : α) (m : Msg) (post : List (Call α)) :
-    ∀ (pre : List (Call α)) (w : World α) (o : Optimizer α), (∀ c ∈ pre, c.fault = none) →
-      leastSquares w o (pre ++ { x := x, fault := some m } :: post) fin =
+theorem leastSquares_fault (ops : ParamOps V R P) (fin : LsqEnd V) (x : V) (m : Msg) (post : List (Call V)) :
+    ∀ (pre : List (Call V)) (w : World P) (o : Optimizer V R P), (∀ c ∈ pre, c.fault = none) →
+      leastSquares ops w o (pre ++ { x := x, fault := some m } :: post) fin =
         ({ w with evaluations := w.evaluations + pre.length + 1,
-                  evaluatedOK := w.evaluatedOK ++ pre.map (·.x) },
-         { o with parameters := x, history := o.history ++ pre.map (·.x) },
-         .error m) := by
+                  evaluatedOK := w.evaluatedOK ++ ops.evaluated o.parameters (pre.map (·.x)) },
+         { o with parameters := ops.setFree (ops.last o.parameters (pre.map (·.x))) x,
+                  history := o.history ++ (ops.states o.parameters (pre.map (·.x))).map ops.row },
+         .error (.raised m)) := by
   intro pre
   induction pre with
-  | nil => intro w o _; simp [leastSquares, objective, calculatePenalty, evaluate]
+  | nil =>
+    intro w o _
+    simp [leastSquares, objectiveSpec, calculatePenaltySpec, ParamOps.evaluated, ParamOps.states,
+      ParamOps.last]
   | cons c cs ih =>
     intro w o h
     have hc : c.fault = none := h c (by simp)
     have hcs : ∀ c' ∈ cs, c'.fault = none := fun c' hc' => h c' (by simp [hc'])
-    simp only [List.cons_append, leastSquares, objective, calculatePenalty, evaluate, hc]
+    simp only [List.cons_append, leastSquares, objective_eq, objectiveSpec, calculatePenaltySpec, hc]
     rw [ih _ _ hcs]
-    simp [Nat.add_assoc, Nat.add_comm 1]
+    simp [Nat.add_assoc, Nat.add_comm 1, ParamOps.evaluated, ParamOps.states, ParamOps.last,
+      ParamOps.step]
 
-/-- parameters the optimizer object holds after a run of returning calls -/
-def lastX (p : α) (calls : List (Call α)) : α := calls.foldl (fun _ c => c.x) p
-
-def endOf : LsqEnd α → Except Msg (LsqResult α)
+def endOf : LsqEnd V → Except Err (LsqResult V)
   | .returns r => .ok r
-  | .raises m => .error m
+  | .raises m => .error (.raised m)
 
-theorem leastSquares_clean (fin : LsqEnd α) :
-    ∀ (calls : List (Call α)) (w : World α) (o : Optimizer α), (∀ c ∈ calls, c.fault = none) →
-      leastSquares w o calls fin =
+theorem leastSquares_clean (ops : ParamOps V R P) (fin : LsqEnd V) :
+    ∀ (calls : List (Call V)) (w : World P) (o : Optimizer V R P), (∀ c ∈ calls, c.fault = none) →
+      leastSquares ops w o calls fin =
         ({ w with evaluations := w.evaluations + calls.length,
-                  evaluatedOK := w.evaluatedOK ++ calls.map (·.x) },
-         { o with parameters := lastX o.parameters calls, history := o.history ++ calls.map (·.x) },
+                  evaluatedOK := w.evaluatedOK ++ ops.evaluated o.parameters (calls.map (·.x)) },
+         { o with parameters := ops.last o.parameters (calls.map (·.x)),
+                  history := o.history ++ (ops.states o.parameters (calls.map (·.x))).map ops.row },
          endOf fin) := by
   intro calls
   induction calls with
-  | nil => intro w o _; cases fin <;> simp [leastSquares, lastX, endOf]
+  | nil =>
+    intro w o _
+    cases fin <;> simp [leastSquares, ParamOps.last, endOf, ParamOps.evaluated, ParamOps.states]
   | cons c cs ih =>
     intro w o h
     have hc : c.fault = none := h c (by simp)
     have hcs : ∀ c' ∈ cs, c'.fault = none := fun c' hc' => h c' (by simp [hc'])
-    simp only [leastSquares, objective, calculatePenalty, evaluate, hc]
+    simp only [leastSquares, objective_eq, objectiveSpec, calculatePenaltySpec, hc]
     rw [ih _ _ hcs]
-    simp [lastX, Nat.add_assoc, Nat.add_comm 1]
+    simp [ParamOps.last, Nat.add_assoc, Nat.add_comm 1, ParamOps.evaluated, ParamOps.states,
+      ParamOps.step]
 
-theorem restore_spec (o : Optimizer α) (h : 2 ≤ o.history.length) :
-    ∃ v, o.history[o.history.length - 2]? = some v ∧ restore o = { o with parameters := v } := by
+theorem restoreSpec_spec (ops : ParamOps V R P) (o : Optimizer V R P) (h : 2 ≤ o.history.length) :
+    ∃ rec, o.history[o.history.length - 2]? = some rec ∧
+      restoreSpec ops o = { o with parameters := ops.fromRow o.parameters rec } := by
   have hlt : o.history.length - 2 < o.history.length := by omega
   refine ⟨o.history[o.history.length - 2], by simp [hlt], ?_⟩
-  simp [restore, hlt]
+  simp [restoreSpec, hlt]
 
 /-- `Optimizer.optimize` when the optimiser's call sequence faults -/
-theorem optimize_fault (w : World α) (o : Optimizer α) (sch : Schedule α) (pre post : List (Call α))
-    (x : α) (m : Msg) (hcalls : sch.calls = pre ++ { x := x, fault := some m } :: post)
+theorem optimize_fault (ops : ParamOps V R P) (w : World P) (o : Optimizer V R P) (sch : Schedule V)
+    (pre post : List (Call V)) (x : V) (m : Msg)
+    (hcalls : sch.calls = pre ++ { x := x, fault := some m } :: post)
     (hpre : ∀ c ∈ pre, c.fault = none) :
-    optimize w o sch =
+    optimize ops w o sch =
       if o.raiseException = true then
         ({ w with stdout := o.teeSaved, evaluations := w.evaluations + pre.length + 1,
-                  evaluatedOK := w.evaluatedOK ++ pre.map (·.x) },
-         { o with parameters := x, history := o.history ++ pre.map (·.x) }, some (.raised m))
+                  evaluatedOK := w.evaluatedOK ++ ops.evaluated o.parameters (pre.map (·.x)) },
+         { o with parameters := ops.setFree (ops.last o.parameters (pre.map (·.x))) x,
+                  history := o.history ++ (ops.states o.parameters (pre.map (·.x))).map ops.row },
+         some (.raised m))
       else
         ({ w with stdout := o.teeSaved, warnings := w.warnings ++ [failureWarning m],
                   evaluations := w.evaluations + pre.length + 1,
-                  evaluatedOK := w.evaluatedOK ++ pre.map (·.x) },
-         { o with parameters := x, history := o.history ++ pre.map (·.x), terminationReason := m },
+                  evaluatedOK := w.evaluatedOK ++ ops.evaluated o.parameters (pre.map (·.x)) },
+         { o with parameters := ops.setFree (ops.last o.parameters (pre.map (·.x))) x,
+                  history := o.history ++ (ops.states o.parameters (pre.map (·.x))).map ops.row,
+                  terminationReason := m },
          none) := by
-  have hls := leastSquares_fault sch.finish x m post pre { w with stdout := Handle.tee } o hpre
-  simp only [optimize, hcalls, hls]
+  have hls := leastSquares_fault ops sch.finish x m post pre { w with stdout := Handle.tee } o hpre
+  rw [optimize_eq]
+  simp only [optimizeSpec, hcalls, hls, Err.msg]
 
 /-- `Optimizer.optimize` when every call returns and `least_squares` returns -/
-theorem optimize_returns (w : World α) (o : Optimizer α) (sch : Schedule α) (res : LsqResult α)
-    (hok : ∀ c ∈ sch.calls, c.fault = none) (hfin : sch.finish = .returns res) :
-    optimize w o sch =
+theorem optimize_returns (ops : ParamOps V R P) (w : World P) (o : Optimizer V R P) (sch : Schedule V)
+    (res : LsqResult V) (hok : ∀ c ∈ sch.calls, c.fault = none) (hfin : sch.finish = .returns res) :
+    optimize ops w o sch =
       ({ w with stdout := o.teeSaved, evaluations := w.evaluations + sch.calls.length,
-                evaluatedOK := w.evaluatedOK ++ sch.calls.map (·.x) },
-       { o with parameters := lastX o.parameters sch.calls, history := o.history ++ sch.calls.map (·.x),
+                evaluatedOK := w.evaluatedOK ++ ops.evaluated o.parameters (sch.calls.map (·.x)) },
+       { o with parameters := ops.last o.parameters (sch.calls.map (·.x)),
+                history := o.history ++ (ops.states o.parameters (sch.calls.map (·.x))).map ops.row,
                 optimizationResult := some res, terminationReason := res.message }, none) := by
-  have hls := leastSquares_clean sch.finish sch.calls { w with stdout := Handle.tee } o hok
+  have hls := leastSquares_clean ops sch.finish sch.calls { w with stdout := Handle.tee } o hok
   rw [hfin] at hls
-  simp only [optimize, hfin, hls, endOf]
+  rw [optimize_eq]
+  simp only [optimizeSpec, hfin, hls, endOf]
 
 /-- `Optimizer.optimize` when every call returns and `least_squares` raises by itself -/
-theorem optimize_raises (w : World α) (o : Optimizer α) (sch : Schedule α) (m : Msg)
-    (hok : ∀ c ∈ sch.calls, c.fault = none) (hfin : sch.finish = .raises m) :
-    optimize w o sch =
+theorem optimize_raises (ops : ParamOps V R P) (w : World P) (o : Optimizer V R P) (sch : Schedule V)
+    (m : Msg) (hok : ∀ c ∈ sch.calls, c.fault = none) (hfin : sch.finish = .raises m) :
+    optimize ops w o sch =
       if o.raiseException = true then
         ({ w with stdout := o.teeSaved, evaluations := w.evaluations + sch.calls.length,
-                  evaluatedOK := w.evaluatedOK ++ sch.calls.map (·.x) },
-         { o with parameters := lastX o.parameters sch.calls, history := o.history ++ sch.calls.map (·.x) },
+                  evaluatedOK := w.evaluatedOK ++ ops.evaluated o.parameters (sch.calls.map (·.x)) },
+         { o with parameters := ops.last o.parameters (sch.calls.map (·.x)),
+                  history := o.history ++ (ops.states o.parameters (sch.calls.map (·.x))).map ops.row },
          some (.raised m))
       else
         ({ w with stdout := o.teeSaved, warnings := w.warnings ++ [failureWarning m],
                   evaluations := w.evaluations + sch.calls.length,
-                  evaluatedOK := w.evaluatedOK ++ sch.calls.map (·.x) },
-         { o with parameters := lastX o.parameters sch.calls, history := o.history ++ sch.calls.map (·.x),
+                  evaluatedOK := w.evaluatedOK ++ ops.evaluated o.parameters (sch.calls.map (·.x)) },
+         { o with parameters := ops.last o.parameters (sch.calls.map (·.x)),
+                  history := o.history ++ (ops.states o.parameters (sch.calls.map (·.x))).map ops.row,
                   terminationReason := m }, none) := by
-  have hls := leastSquares_clean sch.finish sch.calls { w with stdout := Handle.tee } o hok
+  have hls := leastSquares_clean ops sch.finish sch.calls { w with stdout := Handle.tee } o hok
   rw [hfin] at hls
-  simp only [optimize, hfin, hls, endOf]
+  rw [optimize_eq]
+  simp only [optimizeSpec, hfin, hls, endOf, Err.msg]
 
-/-- `create_result` after a contained failure, when its own evaluations return -/
-theorem createResult_failure (w : World α) (o : Optimizer α) (sch : Schedule α)
+/-- `create_result` after a contained failure, when its own evaluations return: the parameters are
+    `fromRow` of record `-2`, refreshed by the record `calculate_penalty` appends -/
+theorem createResult_failure (ops : ParamOps V R P) (w : World P) (o : Optimizer V R P) (sch : Schedule V)
     (hnone : o.optimizationResult = none) (hlen : 2 ≤ o.history.length)
     (hp : sch.penaltyFault = none) (hf : sch.finalFault = none) (hd : sch.dataFault = none) :
-    ∃ v, o.history[o.history.length - 2]? = some v ∧
-      createResult w o sch =
-        ({ w with evaluations := w.evaluations + 1 + 1, evaluatedOK := w.evaluatedOK ++ [v] ++ [v] },
-         .result { success := false, terminationReason := o.terminationReason, optimizedParameters := v,
+    ∃ rec, o.history[o.history.length - 2]? = some rec ∧
+      createResult ops w o sch =
+        ({ w with evaluations := w.evaluations + 1 + 1,
+                  evaluatedOK := w.evaluatedOK ++ [ops.fromRow o.parameters rec] ++
+                    [ops.refresh (ops.fromRow o.parameters rec)] },
+         .result { success := false, terminationReason := o.terminationReason,
+                   optimizedParameters := ops.refresh (ops.fromRow o.parameters rec),
                    restoredRecord := some (o.history.length - 2),
                    numberOfFunctionEvaluations := o.history.length,
-                   parameterHistory := o.history ++ [v] }) := by
-  obtain ⟨v, hv, hrestore⟩ := restore_spec o hlen
-  refine ⟨v, hv, ?_⟩
+                   parameterHistory := o.history ++ [ops.row (ops.refresh (ops.fromRow o.parameters rec))],
+                   penaltyOf := some (ops.fromRow o.parameters rec),
+                   dataOf := some (ops.refresh (ops.fromRow o.parameters rec)) }) := by
+  obtain ⟨rec, hrec, hrestore⟩ := restoreSpec_spec ops o hlen
+  refine ⟨rec, hrec, ?_⟩
   have h1 : ¬ o.history.length = 1 := by omega
-  simp only [createResult, h1, ↓reduceIte, hnone]
-  rw [hrestore, buildResult_clean _ _ _ _ _ hp hf hd]
+  have h0 : o.history.length ≠ 0 := by omega
+  rw [createResult_eq ops w o sch h0]
+  simp only [createResultSpec, h1, h0, ↓reduceIte, hnone]
+  rw [hrestore, buildResultSpec_clean _ _ _ _ _ _ hp hf hd]
   simp [hnone]
 
 /-- `create_result` after `least_squares` returned, when nothing in it raises -/
-theorem createResult_success (w : World α) (o : Optimizer α) (sch : Schedule α) (r : LsqResult α)
-    (hsome : o.optimizationResult = some r) (hlen : o.history.length ≠ 1)
+theorem createResult_success (ops : ParamOps V R P) (w : World P) (o : Optimizer V R P) (sch : Schedule V)
+    (r : LsqResult V) (hsome : o.optimizationResult = some r) (hlen : 2 ≤ o.history.length)
     (hp : sch.penaltyFault = none) (hf : sch.finalFault = none) (hc : sch.covarianceFault = none)
     (hd : sch.dataFault = none) :
-    createResult w o sch =
-      ({ w with evaluations := w.evaluations + 1 + 1, evaluatedOK := w.evaluatedOK ++ [r.x] ++ [r.x] },
-       .result { success := true, terminationReason := o.terminationReason, optimizedParameters := r.x,
+    createResult ops w o sch =
+      ({ w with evaluations := w.evaluations + 1 + 1,
+                evaluatedOK := w.evaluatedOK ++ [ops.setFree o.parameters r.x] ++
+                  [ops.refresh (ops.setFree o.parameters r.x)] },
+       .result { success := true, terminationReason := o.terminationReason,
+                 optimizedParameters := ops.refresh (ops.setFree o.parameters r.x),
                  restoredRecord := none, numberOfFunctionEvaluations := r.nfev,
-                 parameterHistory := o.history ++ [r.x] }) := by
-  simp only [createResult, hlen, ↓reduceIte, hsome, hc]
-  rw [buildResult_clean _ _ _ _ _ hp hf hd]
+                 parameterHistory := o.history ++ [ops.row (ops.refresh (ops.setFree o.parameters r.x))],
+                 penaltyOf := some (ops.setFree o.parameters r.x),
+                 dataOf := some (ops.refresh (ops.setFree o.parameters r.x)) }) := by
+  have h1 : ¬ o.history.length = 1 := by omega
+  have h0 : o.history.length ≠ 0 := by omega
+  rw [createResult_eq ops w o sch h0]
+  simp only [createResultSpec, h1, h0, ↓reduceIte, hsome, hc]
+  rw [buildResultSpec_clean _ _ _ _ _ _ hp hf hd]
   simp
 
 /-! ### frames: what no step touches -/
 
-theorem evaluate_frame (w : World α) (p : α) (f : Option Msg) :
-    (evaluate w p f).1.stdout = w.stdout ∧ (evaluate w p f).1.scheme = w.scheme ∧
-    (evaluate w p f).1.warnings = w.warnings := by
-  cases f <;> simp [evaluate]
+theorem calculatePenaltySpec_frame (ops : ParamOps V R P) (w : World P) (o : Optimizer V R P) (f : Option Msg) :
+    (calculatePenaltySpec ops w o f).1.stdout = w.stdout ∧
+    (calculatePenaltySpec ops w o f).1.scheme = w.scheme ∧
+    (calculatePenaltySpec ops w o f).2.1.teeSaved = o.teeSaved := by
+  cases f <;> simp [calculatePenaltySpec]
 
-theorem calculatePenalty_frame (w : World α) (o : Optimizer α) (f : Option Msg) :
-    (calculatePenalty w o f).1.stdout = w.stdout ∧ (calculatePenalty w o f).1.scheme = w.scheme ∧
-    (calculatePenalty w o f).2.1.teeSaved = o.teeSaved := by
-  cases f <;> simp [calculatePenalty, evaluate]
-
-theorem leastSquares_frame (fin : LsqEnd α) :
-    ∀ (calls : List (Call α)) (w : World α) (o : Optimizer α),
-      (leastSquares w o calls fin).1.stdout = w.stdout ∧
-      (leastSquares w o calls fin).1.scheme = w.scheme ∧
-      (leastSquares w o calls fin).2.1.teeSaved = o.teeSaved := by
+theorem leastSquares_frame (ops : ParamOps V R P) (fin : LsqEnd V) :
+    ∀ (calls : List (Call V)) (w : World P) (o : Optimizer V R P),
+      (leastSquares ops w o calls fin).1.stdout = w.stdout ∧
+      (leastSquares ops w o calls fin).1.scheme = w.scheme ∧
+      (leastSquares ops w o calls fin).2.1.teeSaved = o.teeSaved := by
   intro calls
   induction calls with
   | nil => intro w o; cases fin <;> simp [leastSquares]
   | cons c cs ih =>
     intro w o
     cases hf : c.fault with
-    | some m => simp [leastSquares, objective, calculatePenalty, evaluate, hf]
+    | some m => simp [leastSquares, objectiveSpec, calculatePenaltySpec, hf]
     | none =>
-      simp only [leastSquares, objective, calculatePenalty, evaluate, hf]
-      have := ih { w with evaluations := w.evaluations + 1, evaluatedOK := w.evaluatedOK ++ [c.x] }
-        { o with parameters := c.x, history := o.history ++ [c.x] }
+      simp only [leastSquares, objective_eq, objectiveSpec, calculatePenaltySpec, hf]
+      have := ih { w with evaluations := w.evaluations + 1,
+                          evaluatedOK := w.evaluatedOK ++ [ops.setFree o.parameters c.x] }
+        { o with parameters := ops.refresh (ops.setFree o.parameters c.x),
+                 history := o.history ++ [ops.row (ops.refresh (ops.setFree o.parameters c.x))] }
       simpa using this
 
-theorem buildResult_frame (w : World α) (o : Optimizer α) (sch : Schedule α) (rs : Option Nat) (n : Nat) :
-    (buildResult w o sch rs n).1.stdout = w.stdout ∧ (buildResult w o sch rs n).1.scheme = w.scheme := by
-  unfold buildResult
+theorem buildResultSpec_frame (ops : ParamOps V R P) (w : World P) (o : Optimizer V R P) (sch : Schedule V)
+    (rs : Option Nat) (n : Nat) :
+    (buildResultSpec ops w o sch rs n).1.stdout = w.stdout ∧
+    (buildResultSpec ops w o sch rs n).1.scheme = w.scheme := by
+  unfold buildResultSpec
   cases sch.penaltyFault <;> cases sch.finalFault <;> cases sch.dataFault <;>
-    simp [calculatePenalty, evaluate]
+    simp [calculatePenaltySpec, evaluate]
 
-theorem createResult_frame (w : World α) (o : Optimizer α) (sch : Schedule α) :
-    (createResult w o sch).1.stdout = w.stdout ∧ (createResult w o sch).1.scheme = w.scheme := by
-  unfold createResult
+theorem createResultSpec_frame (ops : ParamOps V R P) (w : World P) (o : Optimizer V R P) (sch : Schedule V) :
+    (createResultSpec ops w o sch).1.stdout = w.stdout ∧
+    (createResultSpec ops w o sch).1.scheme = w.scheme := by
+  unfold createResultSpec
   split
   · simp
   · split
-    · exact buildResult_frame ..
+    · simp
     · split
-      · simp
-      · exact buildResult_frame ..
+      · exact buildResultSpec_frame ..
+      · split
+        · simp
+        · exact buildResultSpec_frame ..
 
-theorem optimize_frame (w : World α) (o : Optimizer α) (sch : Schedule α) :
-    (optimize w o sch).1.stdout = o.teeSaved ∧ (optimize w o sch).1.scheme = w.scheme := by
-  have h := leastSquares_frame sch.finish sch.calls { w with stdout := Handle.tee } o
-  rcases hls : leastSquares { w with stdout := Handle.tee } o sch.calls sch.finish with ⟨w', o', r⟩
+theorem optimize_frame (ops : ParamOps V R P) (w : World P) (o : Optimizer V R P) (sch : Schedule V) :
+    (optimize ops w o sch).1.stdout = o.teeSaved ∧ (optimize ops w o sch).1.scheme = w.scheme := by
+  have h := leastSquares_frame ops sch.finish sch.calls { w with stdout := Handle.tee } o
+  rw [optimize_eq]
+  rcases hls : leastSquares ops { w with stdout := Handle.tee } o sch.calls sch.finish with ⟨w', o', r⟩
   rw [hls] at h
-  simp only [optimize, hls]
+  simp only [optimizeSpec, hls]
   simp only at h
   cases r with
   | ok res => simp [h]
@@ -281,137 +586,260 @@ theorem optimize_frame (w : World α) (o : Optimizer α) (sch : Schedule α) :
 
 /-! ### the history holds the initial record plus one record per evaluation that returned -/
 
-/-- invariant tying `_parameter_history` to the evaluations that returned -/
-def HistInv (p0 : α) (w : World α) (o : Optimizer α) : Prop := o.history = p0 :: w.evaluatedOK
+/-- invariant tying `_parameter_history` to the evaluations that returned: the initial record (of the
+    scheme's parameters `p0`) followed by one record per returned evaluation, each the record of the
+    refreshed parameter set; and what the optimizer holds -/
+def HistInv (ops : ParamOps V R P) (p0 : P) (w : World P) (o : Optimizer V R P) : Prop :=
+  o.history = ops.row (ops.start p0) :: w.evaluatedOK.map (fun p => ops.row (ops.refresh p))
 
-theorem calculatePenalty_inv (p0 : α) (w : World α) (o : Optimizer α) (f : Option Msg)
-    (h : HistInv p0 w o) : HistInv p0 (calculatePenalty w o f).1 (calculatePenalty w o f).2.1 := by
+theorem calculatePenaltySpec_inv (ops : ParamOps V R P) (p0 : P) (w : World P) (o : Optimizer V R P)
+    (f : Option Msg) (h : HistInv ops p0 w o) :
+    HistInv ops p0 (calculatePenaltySpec ops w o f).1 (calculatePenaltySpec ops w o f).2.1 := by
   unfold HistInv at *
-  cases f <;> simp [calculatePenalty, evaluate, h]
+  cases f <;> simp [calculatePenaltySpec, h]
 
-theorem leastSquares_inv (p0 : α) (fin : LsqEnd α) :
-    ∀ (calls : List (Call α)) (w : World α) (o : Optimizer α), HistInv p0 w o →
-      HistInv p0 (leastSquares w o calls fin).1 (leastSquares w o calls fin).2.1 := by
+theorem leastSquares_inv (ops : ParamOps V R P) (p0 : P) (fin : LsqEnd V) :
+    ∀ (calls : List (Call V)) (w : World P) (o : Optimizer V R P), HistInv ops p0 w o →
+      HistInv ops p0 (leastSquares ops w o calls fin).1 (leastSquares ops w o calls fin).2.1 := by
   intro calls
   induction calls with
   | nil => intro w o h; cases fin <;> simpa [leastSquares] using h
   | cons c cs ih =>
     intro w o h
-    have h1 := calculatePenalty_inv p0 w { o with parameters := c.x } c.fault (by simpa [HistInv] using h)
-    rcases hcp : calculatePenalty w { o with parameters := c.x } c.fault with ⟨w', o', e⟩
+    have h1 := calculatePenaltySpec_inv ops p0 w { o with parameters := ops.setFree o.parameters c.x }
+      c.fault (by simpa [HistInv] using h)
+    rcases hcp : calculatePenaltySpec ops w { o with parameters := ops.setFree o.parameters c.x } c.fault
+      with ⟨w', o', e⟩
     rw [hcp] at h1
-    simp only [leastSquares, objective, hcp]
+    simp only [leastSquares, objective_eq, objectiveSpec, hcp]
     cases e with
     | some m => simpa using h1
     | none => exact ih w' o' h1
 
-theorem optimize_inv (p0 : α) (w : World α) (o : Optimizer α) (sch : Schedule α) (h : HistInv p0 w o) :
-    HistInv p0 (optimize w o sch).1 (optimize w o sch).2.1 := by
-  have h1 := leastSquares_inv p0 sch.finish sch.calls { w with stdout := Handle.tee } o
+theorem optimize_inv (ops : ParamOps V R P) (p0 : P) (w : World P) (o : Optimizer V R P) (sch : Schedule V)
+    (h : HistInv ops p0 w o) :
+    HistInv ops p0 (optimize ops w o sch).1 (optimize ops w o sch).2.1 := by
+  have h1 := leastSquares_inv ops p0 sch.finish sch.calls { w with stdout := Handle.tee } o
     (by simpa [HistInv] using h)
-  rcases hls : leastSquares { w with stdout := Handle.tee } o sch.calls sch.finish with ⟨w', o', r⟩
+  rw [optimize_eq]
+  rcases hls : leastSquares ops { w with stdout := Handle.tee } o sch.calls sch.finish with ⟨w', o', r⟩
   rw [hls] at h1
-  simp only [optimize, hls]
+  simp only [optimizeSpec, hls]
   cases r with
   | ok res => simpa [HistInv] using h1
   | error m =>
     simp only
     split <;> simpa [HistInv] using h1
 
-theorem buildResult_inv (p0 : α) (w : World α) (o : Optimizer α) (sch : Schedule α) (rs : Option Nat)
-    (n : Nat) (h : HistInv p0 w o) (r : Result α) (hr : (buildResult w o sch rs n).2 = .result r) :
-    (buildResult w o sch rs n).1.evaluatedOK = r.parameterHistory.tail ++ [r.optimizedParameters] ∧
-    r.parameterHistory.head? = some p0 := by
+theorem buildResultSpec_inv (ops : ParamOps V R P) (p0 : P) (w : World P) (o : Optimizer V R P)
+    (sch : Schedule V) (rs : Option Nat) (n : Nat) (h : HistInv ops p0 w o) (r : Result R P)
+    (hr : (buildResultSpec ops w o sch rs n).2 = .result r) :
+    ∃ E, (buildResultSpec ops w o sch rs n).1.evaluatedOK = E ++ [r.optimizedParameters] ∧
+      r.parameterHistory = ops.row (ops.start p0) :: E.map (fun p => ops.row (ops.refresh p)) ∧
+      ∃ p, E.getLast? = some p ∧ r.optimizedParameters = ops.refresh p ∧ r.penaltyOf = some p ∧
+        r.dataOf = some r.optimizedParameters := by
   unfold HistInv at h
-  unfold buildResult at hr ⊢
+  unfold buildResultSpec at hr ⊢
   cases hp : sch.penaltyFault with
-  | some m => simp [calculatePenalty, evaluate, hp] at hr
+  | some m => simp [calculatePenaltySpec, hp] at hr
   | none =>
     cases hf : sch.finalFault with
-    | some m => simp [calculatePenalty, evaluate, hp, hf] at hr
+    | some m => simp [calculatePenaltySpec, evaluate, hp, hf] at hr
     | none =>
       cases hd : sch.dataFault with
-      | some m => simp [calculatePenalty, evaluate, hp, hf, hd] at hr
+      | some m => simp [calculatePenaltySpec, evaluate, hp, hf, hd] at hr
       | none =>
-        simp only [calculatePenalty, evaluate, hp, hf, hd, Outcome.result.injEq] at hr ⊢
+        simp only [calculatePenaltySpec, evaluate, hp, hf, hd, Outcome.result.injEq] at hr ⊢
         subst hr
-        simp [h]
+        exact ⟨w.evaluatedOK ++ [o.parameters], by simp, by simp [h], o.parameters, by simp, rfl,
+          by simp, rfl⟩
 
 /-! ### `verbose` is stored and handed to scipy, nothing else -/
 
-def Optimizer.setVerbose (o : Optimizer α) (b : Bool) : Optimizer α := { o with verbose := b }
+def Optimizer.setVerbose (o : Optimizer V R P) (b : Bool) : Optimizer V R P := { o with verbose := b }
 
-theorem calculatePenalty_verbose (w : World α) (o : Optimizer α) (f : Option Msg) (b : Bool) :
-    calculatePenalty w (o.setVerbose b) f =
-      ((calculatePenalty w o f).1, (calculatePenalty w o f).2.1.setVerbose b, (calculatePenalty w o f).2.2) := by
-  cases f <;> simp [calculatePenalty, evaluate, Optimizer.setVerbose]
+theorem calculatePenaltySpec_verbose (ops : ParamOps V R P) (w : World P) (o : Optimizer V R P)
+    (f : Option Msg) (b : Bool) :
+    calculatePenaltySpec ops w (o.setVerbose b) f =
+      ((calculatePenaltySpec ops w o f).1, (calculatePenaltySpec ops w o f).2.1.setVerbose b,
+       (calculatePenaltySpec ops w o f).2.2) := by
+  cases f <;> simp [calculatePenaltySpec, Optimizer.setVerbose]
 
-theorem leastSquares_verbose (fin : LsqEnd α) (b : Bool) :
-    ∀ (calls : List (Call α)) (w : World α) (o : Optimizer α),
-      leastSquares w (o.setVerbose b) calls fin =
-        ((leastSquares w o calls fin).1, (leastSquares w o calls fin).2.1.setVerbose b,
-         (leastSquares w o calls fin).2.2) := by
+theorem leastSquares_verbose (ops : ParamOps V R P) (fin : LsqEnd V) (b : Bool) :
+    ∀ (calls : List (Call V)) (w : World P) (o : Optimizer V R P),
+      leastSquares ops w (o.setVerbose b) calls fin =
+        ((leastSquares ops w o calls fin).1, (leastSquares ops w o calls fin).2.1.setVerbose b,
+         (leastSquares ops w o calls fin).2.2) := by
   intro calls
   induction calls with
   | nil => intro w o; cases fin <;> simp [leastSquares]
   | cons c cs ih =>
     intro w o
-    have h := calculatePenalty_verbose w { o with parameters := c.x } c.fault b
-    simp only [leastSquares, objective]
-    have e : ({ o.setVerbose b with parameters := c.x } : Optimizer α) =
-        ({ o with parameters := c.x } : Optimizer α).setVerbose b := by simp [Optimizer.setVerbose]
+    have h := calculatePenaltySpec_verbose ops w { o with parameters := ops.setFree o.parameters c.x } c.fault b
+    simp only [leastSquares, objective_eq, objectiveSpec]
+    have e : ({ o.setVerbose b with parameters := ops.setFree (o.setVerbose b).parameters c.x } : Optimizer V R P) =
+        ({ o with parameters := ops.setFree o.parameters c.x } : Optimizer V R P).setVerbose b := by
+      simp [Optimizer.setVerbose]
     rw [e, h]
-    generalize calculatePenalty w { o with parameters := c.x } c.fault = res
+    generalize calculatePenaltySpec ops w { o with parameters := ops.setFree o.parameters c.x } c.fault = res
     obtain ⟨w', o', e'⟩ := res
     cases e' with
     | some m => simp
     | none => simpa using ih w' o'
 
-theorem buildResult_verbose (w : World α) (o : Optimizer α) (sch : Schedule α) (rs : Option Nat) (n : Nat)
-    (b : Bool) : buildResult w (o.setVerbose b) sch rs n = buildResult w o sch rs n := by
-  unfold buildResult
-  rw [calculatePenalty_verbose]
-  generalize calculatePenalty w o sch.penaltyFault = res
+theorem buildResultSpec_verbose (ops : ParamOps V R P) (w : World P) (o : Optimizer V R P) (sch : Schedule V)
+    (rs : Option Nat) (n : Nat) (b : Bool) :
+    buildResultSpec ops w (o.setVerbose b) sch rs n = buildResultSpec ops w o sch rs n := by
+  unfold buildResultSpec
+  rw [calculatePenaltySpec_verbose]
+  generalize calculatePenaltySpec ops w o sch.penaltyFault = res
   obtain ⟨w', o', e'⟩ := res
   cases e' <;> simp [Optimizer.setVerbose]
 
-theorem createResult_verbose (w : World α) (o : Optimizer α) (sch : Schedule α) (b : Bool) :
-    createResult w (o.setVerbose b) sch = createResult w o sch := by
-  have e1 : (restore (o.setVerbose b)) = (restore o).setVerbose b := by
-    simp only [restore, Optimizer.setVerbose]
+theorem createResultSpec_verbose (ops : ParamOps V R P) (w : World P) (o : Optimizer V R P) (sch : Schedule V)
+    (b : Bool) : createResultSpec ops w (o.setVerbose b) sch = createResultSpec ops w o sch := by
+  have e1 : (restoreSpec ops (o.setVerbose b)) = (restoreSpec ops o).setVerbose b := by
+    simp only [restoreSpec, Optimizer.setVerbose]
     split <;> rfl
-  simp only [createResult, show (o.setVerbose b).history = o.history from rfl,
+  simp only [createResultSpec, show (o.setVerbose b).history = o.history from rfl,
     show (o.setVerbose b).optimizationResult = o.optimizationResult from rfl]
   split
   · rfl
-  · cases hr : o.optimizationResult with
-    | none =>
-      simp only
-      rw [e1, buildResult_verbose]
-    | some r =>
-      simp only
-      cases sch.covarianceFault with
-      | some m => rfl
+  · split
+    · rfl
+    · cases hr : o.optimizationResult with
       | none =>
-        exact buildResult_verbose w
-          ⟨r.x, o.teeSaved, o.verbose, o.raiseException, some r, o.terminationReason, o.history⟩ sch none r.nfev b
+        simp only
+        rw [e1, buildResultSpec_verbose]
+      | some r =>
+        simp only
+        cases sch.covarianceFault with
+        | some m => rfl
+        | none =>
+          exact buildResultSpec_verbose ops w
+            ⟨ops.setFree o.parameters r.x, o.teeSaved, o.verbose, o.raiseException, some r,
+             o.terminationReason, o.history⟩ sch none r.nfev b
 
-theorem optimize_verbose (w : World α) (o : Optimizer α) (sch : Schedule α) (b : Bool) :
-    optimize w (o.setVerbose b) sch =
-      ((optimize w o sch).1, (optimize w o sch).2.1.setVerbose b, (optimize w o sch).2.2) := by
-  have hv := leastSquares_verbose sch.finish b sch.calls { w with stdout := Handle.tee } o
-  rcases hls : leastSquares { w with stdout := Handle.tee } o sch.calls sch.finish with ⟨w', o', r⟩
+theorem optimizeSpec_verbose (ops : ParamOps V R P) (w : World P) (o : Optimizer V R P) (sch : Schedule V)
+    (b : Bool) :
+    optimizeSpec ops w (o.setVerbose b) sch =
+      ((optimizeSpec ops w o sch).1, (optimizeSpec ops w o sch).2.1.setVerbose b,
+       (optimizeSpec ops w o sch).2.2) := by
+  have hv := leastSquares_verbose ops sch.finish b sch.calls { w with stdout := Handle.tee } o
+  rcases hls : leastSquares ops { w with stdout := Handle.tee } o sch.calls sch.finish with ⟨w', o', r⟩
   rw [hls] at hv
-  simp only [optimize, hv, hls]
+  simp only [optimizeSpec, hv, hls]
   cases r with
   | ok res => simp [Optimizer.setVerbose]
   | error m =>
     simp only [Optimizer.setVerbose]
     by_cases hr : o'.raiseException = true <;> simp [hr]
 
+/-! ### the history and the current parameter set when the optimiser's call sequence ends -/
+
+/-- `_parameter_history` after the calls at `vs` returned: the record of the (refreshed) initial
+    parameters, then one record per call -/
+def histOf (ops : ParamOps V R P) (p0 : P) (vs : List V) : List R :=
+  ops.row (ops.start p0) :: (ops.states (ops.start p0) vs).map ops.row
+
+/-- `self._parameters` when the call at `x` raised after the calls at `vs` had returned: the free
+    parameters are already those of the failing call -/
+def curOf (ops : ParamOps V R P) (p0 : P) (vs : List V) (x : V) : P :=
+  ops.setFree (ops.last (ops.start p0) vs) x
+
+theorem histOf_length (ops : ParamOps V R P) (p0 : P) (vs : List V) :
+    (histOf ops p0 vs).length = vs.length + 1 := by
+  simp [histOf, ParamOps.states_length]
+
+/-! ### what `create_result` does with faults of its own -/
+
+/-- the first thing that raises inside `create_result`, in execution order: the covariance (SVD, only
+    after `least_squares` returned), the re-evaluation `calculate_penalty()`, the final evaluation, the
+    construction of the result data -/
+def firstLate (sch : Schedule V) (success : Bool) : Option Msg :=
+  match (if success then sch.covarianceFault else none), sch.penaltyFault, sch.finalFault, sch.dataFault with
+  | some m, _, _, _ => some m
+  | none, some m, _, _ => some m
+  | none, none, some m, _ => some m
+  | none, none, none, d => d
+
+theorem createResult_single (ops : ParamOps V R P) (w : World P) (o : Optimizer V R P) (sch : Schedule V)
+    (h : o.history.length = 1) : (createResult ops w o sch).2 = .exception .initialParameter := by
+  rw [createResult_eq ops w o sch (by omega)]
+  simp [createResultSpec, h]
+
+theorem createResult_classified (ops : ParamOps V R P) (w : World P) (o : Optimizer V R P) (sch : Schedule V)
+    (h : 2 ≤ o.history.length) :
+    (∀ m, firstLate sch o.optimizationResult.isSome = some m →
+      (createResult ops w o sch).2 = .exception (.raised m)) ∧
+    (firstLate sch o.optimizationResult.isSome = none →
+      ∃ r, (createResult ops w o sch).2 = .result r ∧ r.success = o.optimizationResult.isSome) := by
+  have h1 : ¬ o.history.length = 1 := by omega
+  have h0 : o.history.length ≠ 0 := by omega
+  rw [createResult_eq ops w o sch h0]
+  simp only [createResultSpec, h1, h0, ↓reduceIte]
+  cases hopt : o.optimizationResult with
+  | none =>
+    simp only [buildResultSpec, firstLate, Option.isSome_none, Bool.false_eq_true, ↓reduceIte]
+    cases hp : sch.penaltyFault <;> cases hf : sch.finalFault <;> cases hd : sch.dataFault <;>
+      simp [calculatePenaltySpec, evaluate, restoreSpec]
+    all_goals (split <;> simp [hopt])
+  | some r =>
+    simp only [buildResultSpec, firstLate, Option.isSome_some, ↓reduceIte]
+    cases hc : sch.covarianceFault <;> cases hp : sch.penaltyFault <;> cases hf : sch.finalFault <;>
+      cases hd : sch.dataFault <;> simp [calculatePenaltySpec, evaluate]
+
+/-- a call list either returns everywhere or splits at its first fault -/
+theorem calls_split : ∀ (calls : List (Call V)),
+    (∀ c ∈ calls, c.fault = none) ∨
+    ∃ pre x m post, calls = pre ++ { x := x, fault := some m } :: post ∧ ∀ c ∈ pre, c.fault = none := by
+  intro calls
+  induction calls with
+  | nil => left; simp
+  | cons c cs ih =>
+    cases hc : c.fault with
+    | some m =>
+      right
+      exact ⟨[], c.x, m, cs, by cases c; simp_all, by simp⟩
+    | none =>
+      rcases ih with h | ⟨pre, x, m, post, hsplit, hpre⟩
+      · left
+        intro c' hc'
+        rcases List.mem_cons.1 hc' with rfl | h'
+        · exact hc
+        · exact h c' h'
+      · right
+        refine ⟨c :: pre, x, m, post, by simp [hsplit], ?_⟩
+        intro c' hc'
+        rcases List.mem_cons.1 hc' with rfl | h'
+        · exact hc
+        · exact hpre c' h'
+
+/-- the calls that return before the first fault -/
+def okPrefix (calls : List (Call V)) : List (Call V) := calls.takeWhile (fun c => c.fault.isNone)
+
+theorem okPrefix_all (calls : List (Call V)) (h : ∀ c ∈ calls, c.fault = none) : okPrefix calls = calls := by
+  unfold okPrefix
+  induction calls with
+  | nil => rfl
+  | cons c cs ih =>
+    have hc : c.fault = none := h c (by simp)
+    simp only [List.takeWhile_cons, hc, Option.isNone_none, ↓reduceIte, List.cons.injEq, true_and]
+    exact ih (fun c' hc' => h c' (by simp [hc']))
+
+theorem okPrefix_split (pre post : List (Call V)) (x : V) (m : Msg) (h : ∀ c ∈ pre, c.fault = none) :
+    okPrefix (pre ++ { x := x, fault := some m } :: post) = pre := by
+  unfold okPrefix
+  induction pre with
+  | nil => simp
+  | cons c cs ih =>
+    have hc : c.fault = none := h c (by simp)
+    simp only [List.cons_append, List.takeWhile_cons, hc, Option.isNone_none, ↓reduceIte, List.cons.injEq, true_and]
+    exact ih (fun c' hc' => h c' (by simp [hc']))
+
 /-! ### single-fault schedules -/
 
-theorem injectCalls_none (msg : Msg) : ∀ (xs : List α) (k : Nat), (k = 0 ∨ xs.length < k) →
+theorem injectCalls_none (msg : Msg) : ∀ (xs : List V) (k : Nat), (k = 0 ∨ xs.length < k) →
     injectCalls xs k msg = xs.map (fun x => { x := x, fault := none }) := by
   intro xs
   induction xs with
@@ -423,7 +851,7 @@ theorem injectCalls_none (msg : Msg) : ∀ (xs : List α) (k : Nat), (k = 0 ∨ 
     simp only [injectCalls, hk, ↓reduceIte, List.map_cons]
     rw [ih (k - 1) (by omega)]
 
-theorem injectCalls_split (msg : Msg) : ∀ (xs : List α) (k : Nat), 1 ≤ k → k ≤ xs.length →
+theorem injectCalls_split (msg : Msg) : ∀ (xs : List V) (k : Nat), 1 ≤ k → k ≤ xs.length →
     ∃ x post, xs[k - 1]? = some x ∧
       injectCalls xs k msg =
         (xs.take (k - 1)).map (fun x => { x := x, fault := none }) ++ { x := x, fault := some msg } :: post := by
